@@ -434,12 +434,15 @@ def check_shs(inp):
                     f"f={f:.4e}, stickiness={tau}, host {host}", iba / qca, "within 5 % of 1"))
     if host == "ice":
         return out
-    lay0 = mk_layer("sticky_hard_spheres", 1e-4, 1.0, eps, radius=r, stickiness=tau)
-    ray = float(em("rayleigh")(s, lay0).ks)
-    for name in ("iba", "dmrt_qca_shortrange"):
+    for f0 in (1e-4, 1e-6):
+      lay0 = mk_layer("sticky_hard_spheres", f0, 1.0, eps, radius=r, stickiness=tau)
+      ray = float(em("rayleigh")(s, lay0).ks)
+      for name in ("iba", "dmrt_qca_shortrange", "dmrt_qcacp_shortrange"):
+        if name == "dmrt_qcacp_shortrange" and f0 == 1e-4:
+            continue
         k = ks_of(name, s, lay0)
         if not abs(k / ray - 1) <= 0.005:
-            out.append((f"shs:dilute-limit:{name}", f"{name} at f=1e-4: ks={k:.6e} vs Rayleigh {ray:.6e} (ratio {k / ray:.5f}), nu={nu:.4e}, radius/lambda={rl:.3e}, "
+            out.append((f"shs:dilute-limit:{name}", f"{name} at f={f0}: ks={k:.6e} vs Rayleigh {ray:.6e} (ratio {k / ray:.5f}), nu={nu:.4e}, radius/lambda={rl:.3e}, "
                         f"stickiness={tau}", k / ray, "within 0.5 % of 1"))
     return out
 
@@ -527,7 +530,34 @@ def check_twin(inp):
     return out
 
 
-CHECKS = {"rayleigh": check_rayleigh_limit, "scaling": check_scaling, "shs": check_shs, "eeff": check_eeff, "twin": check_twin}
+def check_twin_auto(inp):
+    """the dense-snow correction (dense_snow_correction="auto": media above one half are computed on their inverted twin), asked through the
+    model factory after an uncorrected model of the same theory: the corrected model leaves a dilute medium as it is and gives its twin the
+    same scattering coefficient and effective permittivity"""
+    from smrt.core.model import make_emmodel
+    from smrt import make_snow_layer
+    from smrt.core.globalconstants import DENSITY_OF_ICE
+    nu, f, rl = inp["nu"], inp["f"], inp["rl"]
+    s = sensor(nu)
+    out = []
+    for theory, msname in (("iba", "independent_sphere"), ("iba", "sticky_hard_spheres"), ("dmrt_qca_shortrange", "sticky_hard_spheres")):
+        lay = make_snow_layer(1.0, msname, density=f * DENSITY_OF_ICE, temperature=inp["T"], radius=rl * C_SPEED / nu)
+        twin = lay.inverted_medium()
+        uncorrected = make_emmodel(theory, dense_snow_correction=None)
+        corrected = make_emmodel(theory, dense_snow_correction="auto")
+        ref = make_emmodel(theory)(s, lay)
+        a, b, u = corrected(s, lay), corrected(s, twin), uncorrected(s, lay)
+        for nm, x, y in (("corrected(dilute) vs plain", a, ref), ("uncorrected(dilute) vs plain", u, ref), ("corrected(twin) vs corrected(dilute)", b, a)):
+            ks_x, ks_y = float(np.squeeze(x.ks)), float(np.squeeze(y.ks))
+            ex, ey = complex(x.effective_permittivity()), complex(y.effective_permittivity())
+            if not (abs(ks_x - ks_y) <= 1e-6 * abs(ks_y) and abs(ex - ey) <= 1e-6 * abs(ey)):
+                out.append((f"dense-auto-twin:{theory}:{msname}", f"{theory} on {msname} (f={f:.4f}): {nm}: ks {ks_x!r} vs {ks_y!r}, eps_eff {ex} vs {ey}",
+                            [ks_x, ks_y], "equal at 1e-6"))
+                break
+    return out
+
+
+CHECKS = {"twin-auto": check_twin_auto, "rayleigh": check_rayleigh_limit, "scaling": check_scaling, "shs": check_shs, "eeff": check_eeff, "twin": check_twin}
 
 
 def has_acf(ms):
@@ -569,6 +599,9 @@ def oracle(ctx, hints, effort):
             f = 0.04999
         tau = [None, float(10 ** rng.uniform(-1, 3)), float(rng.uniform(0.1, 0.3))][i % 3]
         record("shs", {"nu": nu, "rl": rl, "f": f, "T": float(rng.uniform(200, 273)), "tau": tau, "host": "ice" if i % 5 == 4 else "air"})
+    for i in range(max(2, n // 20)):
+        record("twin-auto", {"nu": gen_nu(rng), "rl": gen_rl(rng), "f": float(rng.uniform(0.002, 0.04)) if i % 2 == 0 else float(rng.uniform(0.05, 0.45)),
+                             "T": float(rng.uniform(200, 273))})
     for i in range(max(3, n // 10)):
         record("eeff", {"nu": gen_nu(rng), "T": float(rng.uniform(200, 273))})
     for nu in (1.4e9, 10e9, 19e9, 37e9):
